@@ -555,6 +555,26 @@ def dtype_value_lattice(ctx):
                                 if label.startswith("deltaphi") and g and w and g[0] == w[0] == "s" and \
                                         abs(abs(float(g[1])) - math.pi) < 1e-5 and abs(abs(float(w[1])) - math.pi) < 1e-5:
                                     continue
+                                # float32 columns: is the operation WELL-CONDITIONED at this element?  Perturb the stored coordinates by one float32
+                                # ulp (relative 1.2e-7) in float64 on the object backend: if that alone moves the result by more than a tenth of the
+                                # tolerance (cancellation, e.g. unit() of a nearly light-like vector: tau2 = t^2 - p^2), float32 and float64
+                                # arithmetic may legitimately differ here - "well-conditioned values" is the property's own proviso
+                                if f32:
+                                    try:
+                                        moved = False
+                                        for sgn in ((1, -1, 1, -1), (-1, 1, 1, -1), (1, 1, -1, -1)):
+                                            o_p = C.obj_vec(fl, sig, [float(x) * (1 + 1.2e-7 * sg) for x, sg in zip(rows[i], sgn)])
+                                            w_p = elem_value(fn(o_p))
+                                            if w_p is None or w is None or w_p[0] != w[0]:
+                                                continue
+                                            a_, b_ = ([w_p[1]], [w[1]]) if w[0] == "s" else (list(w_p[2]), list(w[2]))
+                                            if any(abs(float(x) - float(y)) > 2e-6 * max(10.0, abs(float(y))) for x, y in zip(a_, b_) if not isinstance(y, (bool, numpy.bool_))):
+                                                moved = True
+                                        if moved:
+                                            dist["ill-conditioned-float32-skipped"] = dist.get("ill-conditioned-float32-skipped", 0) + 1
+                                            continue
+                                    except Exception:  # noqa: BLE001
+                                        pass
                                 bad.append((f"{desc} element {i} stored {rows[i]}", f"array {g} object {w}", key))
                                 break
                         dist[tag + dtname] = dist.get(tag + dtname, 0) + 1
